@@ -46,6 +46,10 @@ type World struct {
 	needHex    bool
 	loadErrors []string
 	funcs      map[string]*FuncSite // pkgpath::Recv.Name -> site
+	regexVars  map[string]string    // objKey of package-level regex var -> pattern literal
+	regexVarNames []string
+	regexByName map[string]string
+	regexInfos map[string]*RegexInfo
 }
 
 type FuncSite struct {
@@ -173,6 +177,9 @@ func loadWorld(repo string) (*World, error) {
 			w.externs[c.Func] = c
 		}
 	}
+	w.regexByName = map[string]string{}
+	w.regexInfos = map[string]*RegexInfo{}
+	w.collectRegexVars()
 	for _, sf := range w.specList {
 		w.translateSpec(sf)
 	}
@@ -185,7 +192,7 @@ func (w *World) useSpec(sf *SpecFunc) {}
 func (w *World) newFnCtx(site *FuncSite, c *Contract) *FnCtx {
 	fc := &FnCtx{w: w, pkg: site.pkg, name: site.name, contract: c,
 		initial: map[string]Val{}, obls: map[string]*Obligation{}, loopOrd: map[ast.Stmt]int{}, siteOrd: map[ast.Node]int{},
-		siteCount: map[string]int{}, unmodelled: map[string]bool{}, externs: map[string]bool{}}
+		siteCount: map[string]int{}, unmodelled: map[string]bool{}, externs: map[string]bool{}, regexUsed: map[string]bool{}}
 	fc.qname = pkgShort(site.pkg.PkgPath) + "." + site.name
 	if site.decl != nil {
 		fc.decl = site.decl
@@ -244,7 +251,7 @@ func (w *World) translateSpec(sf *SpecFunc) {
 	sf.rsort = sortOf(sig.Results().At(0).Type())
 	fc := &FnCtx{w: w, pkg: sf.pkg, name: sf.fn.Name(), qname: "spec:" + sf.fn.Name(),
 		initial: map[string]Val{}, obls: map[string]*Obligation{}, loopOrd: map[ast.Stmt]int{}, siteOrd: map[ast.Node]int{},
-		siteCount: map[string]int{}, unmodelled: map[string]bool{}, externs: map[string]bool{}}
+		siteCount: map[string]int{}, unmodelled: map[string]bool{}, externs: map[string]bool{}, regexUsed: map[string]bool{}}
 	fc.specMode = sf
 	st := &State{env: map[string]Val{}, fresh: map[string]bool{}}
 	for i := 0; i < sig.Params().Len(); i++ {
